@@ -16,18 +16,23 @@ import itertools
 
 from .. import core
 from .. import stabutil as su
+from .. import stabapi_cases as sa    # API stage: constructors, strings, standard form, composite gates
 
-LEAN_TARGETS = ["SqVerif.Props.C13"]
-PROPS_FILE = ["SqVerif/Props/C13Gates.lean", "SqVerif/Props/C13Gauss.lean"]
-DRIVE_TARGETS = ["SqVerif.Drive.Stab"]
+LEAN_TARGETS = ["SqVerif.Props.C13", "SqVerif.Props.C13Api"]
+PROPS_FILE = ["SqVerif/Props/C13Gates.lean", "SqVerif/Props/C13Gauss.lean", "SqVerif/Props/C13Api.lean"]
+DRIVE_TARGETS = ["SqVerif.Drive.Stab", "SqVerif.Drive.StabApi"]
 TRUSTED = [
     "model Stab.lean hand-written from stabilizer_states.py:201-211,262-507,531-701; tied by differential execution (this check)",
     "NumPy linear algebra of the reference oracle (complex128, tolerance 1e-8; stabilizer amplitudes are exact multiples of 2^(-k/2))",
     "input states are produced by a symbolic Clifford simulator whose tables are derived numerically from the gate matrices",
+    "model StabApi.lean hand-written from stabilizer_states.py:87-260,314-315,420-429,447-471,509-529,628-634 (graph constructor as fixed by fix-graph-node-order); "
+    "tied by differential execution (API stage, harness/stabapi_cases.py); __repr__ (numpy formatting) is checked by eval round trip only",
 ]
 ASSUMPTIONS = [
     "states are n x (2n+1) boolean matrices of n commuting independent generators (what every constructor used by the engine produces)",
     "qubit 0 is the leftmost tensor factor, K = [[1,-i],[i,-1]]/sqrt2, S = diag(1,i) (the conventions of the CQC gate set)",
+    "API stage: graphs are simple undirected networkx.Graph objects on the nodes 0..n-1, n >= 1 (qubit i = node i); constructor data are "
+    "(nested) lists / tuples / arrays of 0/1 or of str; objects of other Python types are outside the model",
 ]
 
 
@@ -121,8 +126,13 @@ def run(ctx):
                 "random, malformed); thorough: 3 re-mixed generator sets of every 2..3-qubit state x every gate. "
                 "non-trivial = accepted operation on >= 2 qubits" % ctx.scale(8, 10))
     replay = getattr(ctx, "replay", None)
+    api_descs = None                  # API stage: None = generate its cases, [] = skip (replay of a case of this module)
     if replay and isinstance(replay.get("input"), dict) and replay["input"].get("case"):
         descs = [su.desc_from_json(replay["input"]["case"])]
+        if sa.is_api(descs[0]):
+            descs, api_descs = [], descs
+        else:
+            api_descs = []
     else:
         descs = build_cases(ctx)
         res.exhaustive = True      # parts (a)-(d) are complete enumerations
@@ -132,6 +142,7 @@ def run(ctx):
         su.tie(res, queries, "Stab model vs StabilizerState")
         res.notes.append("tie: %d of %d observations equal at row level, %d equal only at group level" % (
             res.dist.get("tie:row_level_equal", 0), res.traces, res.dist.get("tie:row_level_differs_group_equal", 0)))
+    sa.stage(ctx, res, api_descs)     # API stage (harness/stabapi_cases.py): oracle + tie against the driver stabapi
     return res
 
 
